@@ -235,6 +235,9 @@ type PtrMap map[string]*int
 
 type IntSlice []int
 type StrSlice []string
+
+// MyStrs: the elements are of a named string type; the driver is handed MyStr values, not plain strings.
+type MyStrs []MyStr
 type PersonSlice []Person
 
 // named slice types over struct types the statements insert: not the `[]T` / `[]*T` a bulk insert takes
@@ -469,7 +472,7 @@ var zooSamples = []zooEntry{
 	{"Unexported", Unexported{}}, {"BadFlag", BadFlag{}}, {"BadEmpty", BadEmpty{}}, {"BadQuote", BadQuote{}},
 	{"BadChar", BadChar{}}, {"BadDigit", BadDigit{}}, {"DupTag", DupTag{}}, {"DupEmbed", DupEmbed{}},
 	{"Rec", Rec{}}, {"RecA", RecA{}}, {"RecRoot", RecRoot{}}, {"M", sqlair.M{}}, {"IntMap", IntMap{}}, {"KM", KM{}}, {"BadMap", BadMap{}}, {"PtrMap", PtrMap{}},
-	{"S", sqlair.S{}}, {"IntSlice", IntSlice{}}, {"StrSlice", StrSlice{}}, {"PersonSlice", PersonSlice{}},
+	{"S", sqlair.S{}}, {"IntSlice", IntSlice{}}, {"StrSlice", StrSlice{}}, {"MyStrs", MyStrs{}}, {"PersonSlice", PersonSlice{}},
 	{"Priced", Priced{}}, {"TaggedEmbed", TaggedEmbed{}}, {"EmbedUnexported", EmbedUnexported{}},
 	{"EmbedNonStruct", EmbedNonStruct{}}, {"Mixed", Mixed{}}, {"Doc", Doc{}}, {"Diamond", Diamond{}}, {"Twice", Twice{}}, {"Tracked", Tracked{}}, {"BlobOpt", BlobOpt{}}, {"PtrScan", PtrScan{}}, {"Wide", Wide{}}, {"Bill", Bill{}}, {"Loose", Loose{}}, {"HasPtrValuer", HasPtrValuer{}}, {"Page", Page[int]{}}, {"KV", KV[int]{}}, {"List", List[int]{}},
 	{"TagLoneQuote", TagLoneQuote{}}, {"TagLoneDQuote", TagLoneDQuote{}}, {"TagLoneQuoteFlag", TagLoneQuoteFlag{}}, {"TagEmptyQuoted", TagEmptyQuoted{}}, {"TagEmptyDQuoted", TagEmptyDQuoted{}}, {"TagQuoteInside", TagQuoteInside{}}, {"TagSpace", TagSpace{}}, {"TagTrailingComma", TagTrailingComma{}}, {"TagTwoFlags", TagTwoFlags{}}, {"TagDash", TagDash{}}, {"TagStar", TagStar{}}, {"TagUnderscore", TagUnderscore{}}, {"TagMixedQuotes", TagMixedQuotes{}},
@@ -479,7 +482,7 @@ var zooSamples = []zooEntry{
 // good types for statement generation (Prepare succeeds with them)
 var goodStructs = []string{"Person", "Address", "Manager", "Embed", "EmbedPtr", "Deep", "Deep4", "Contact", "AutoID", "AutoID", "Omit", "PtrFields", "Quoted", "Unicode", "Numeric", "Priced", "TaggedEmbed", "EmbedUnexported", "EmbedNonStruct", "Mixed", "Doc", "Diamond", "Twice", "Tracked", "BlobOpt", "PtrScan", "Wide", "Bill", "Loose", "HasPtrValuer"}
 var goodMaps = []string{"M", "IntMap", "KM", "PtrMap"}
-var goodSlices = []string{"S", "IntSlice", "StrSlice", "PersonSlice"}
+var goodSlices = []string{"S", "IntSlice", "StrSlice", "PersonSlice", "MyStrs"}
 
 func zooByName(name string) any {
 	for _, z := range zooSamples {
